@@ -158,6 +158,7 @@ type job struct {
 	MaxSec  int      `json:"max_sec,omitempty"`
 	Samples int      `json:"samples,omitempty"`
 	CapSec  int      `json:"cap_sec,omitempty"`
+	Retries int      `json:"retries,omitempty"`
 }
 
 type violation struct {
@@ -545,7 +546,7 @@ func minimiseAndRecord(spec *meta.Spec, tier string, base uint64, f found) (stri
 		so.Repro = rr.Viol != nil && rr.Viol.Class() == class
 		so.Result, so.FromLen, so.ToLen, so.Execs, so.GaveUp = rr, len(f.Result.Tape), len(rr.Tape), 1, "not shrunk: race reports are once-per-process"
 	} else {
-		sj := &job{Mode: "shrink", Prop: spec.ID, Tier: tier, Tape: f.Result.Tape, Class: class, MaxExec: 2000, MaxSec: 60}
+		sj := &job{Mode: "shrink", Prop: spec.ID, Tier: tier, Tape: f.Result.Tape, Class: class, MaxExec: 2000, MaxSec: 60, Retries: retriesFor(spec, class)}
 		if log, err := runWorker(spec, sj, 240*time.Second, so); err != nil {
 			return "", nil, fmt.Errorf("shrink of %s failed: %v\n%s", class, err, tail(log, 20))
 		}
@@ -571,14 +572,31 @@ func minimiseAndRecord(spec *meta.Spec, tier string, base uint64, f found) (stri
 	// Verify: fresh process, same class, same digest.
 	for i := 0; i < 2; i++ {
 		rr := &result{}
-		if log, err := runWorker(spec, &job{Mode: "replay", Prop: spec.ID, Tier: tier, Tape: rf.Tape}, 240*time.Second, rr); err != nil {
+		if log, err := runWorker(spec, &job{Mode: "replay", Prop: spec.ID, Tier: tier, Tape: rf.Tape, Class: class, Retries: retriesFor(spec, class)}, 240*time.Second, rr); err != nil {
 			return "", nil, fmt.Errorf("replay verification failed: %v\n%s", err, tail(log, 20))
+		}
+		if retriesFor(spec, class) > 0 && rr.Viol != nil && rr.Viol.Class() == class {
+			// Outcome decided by the runtime's select choice (DESIGN §4 C20,
+			// §9): the class recurs, the digest need not.
+			rf.Shrink["exact_replay"] = false
+			continue
 		}
 		if rr.Viol == nil || rr.Viol.Class() != class || rr.Digest != rf.Digest {
 			return "", nil, fmt.Errorf("replay of %s is not exact (class %v digest %x vs %x): harness failure, not reported as violation", path, rr.Viol, rr.Digest, rf.Digest)
 		}
 	}
 	return path, rf, nil
+}
+
+// retriesFor says how often a replay may be repeated until the class recurs.
+// Only the two C20 classes that mean "Dial no longer waits for its watcher
+// goroutine" get retries: what the abandoned goroutine then does depends on
+// the runtime's choice between two ready select cases, which no seed decides.
+func retriesFor(spec *meta.Spec, class string) int {
+	if spec.Engine == "dial" && (strings.Contains(class, "conn_touched_after_return") || strings.Contains(class, "watcher_goroutine_alive")) {
+		return 48
+	}
+	return 0
 }
 
 func sanitize(s string) string {
@@ -625,7 +643,7 @@ func replay(path string) int {
 		return 2
 	}
 	rr := &result{}
-	if log, err := runWorker(spec, &job{Mode: "replay", Prop: spec.ID, Tier: rf.Tier, Tape: rf.Tape}, 600*time.Second, rr); err != nil {
+	if log, err := runWorker(spec, &job{Mode: "replay", Prop: spec.ID, Tier: rf.Tier, Tape: rf.Tape, Class: rf.Class, Retries: retriesFor(spec, rf.Class)}, 600*time.Second, rr); err != nil {
 		fmt.Fprintf(os.Stderr, "replay failed: %v\n%s\n", err, tail(log, 30))
 		return 2
 	}
